@@ -16,7 +16,8 @@ RULE = ('cases: (a) a valid peer-model prefix that opens and closes streams, the
         '~45 generators grouped by RFC category (FRAME_SIZE_ERROR, FLOW_CONTROL_ERROR, STREAM_CLOSED, '
         'COMPRESSION_ERROR, ENHANCE_YOUR_CALM, PROTOCOL_ERROR), oracle: the call raises ProtocolError, appends '
         'exactly one GOAWAY whose code equals the exception code and the category code and whose last-stream-id is '
-        'the highest peer-opened id; (b) mutated traffic as in C17 with the accounting monitor only; non-trivial = '
+        'the highest peer-opened id, and every later raising receive_data on the closed connection again appends '
+        'exactly one GOAWAY carrying its exception code; (b) mutated traffic as in C17 with the accounting monitor only; non-trivial = '
         'violation delivered after a prefix that opened >= 2 peer streams (a), or a raising mutated stream with '
         '>= 2 frames (b); distinct by concrete trace')
 ASSUMPTIONS = ['category codes follow DESIGN.md Appendix C; the GOAWAY last-stream-id may or may not include a '
@@ -43,6 +44,7 @@ class Ctx:
         self.next_sid = next_peer_sid   # next id the peer may open (odd at a server)
         self.open_sid = open_sid        # a stream on which the peer may send DATA, or None
         self.opens = None               # id opened by the violating input itself, if any
+        self.ended_sid = None           # a peer-initiated / promised stream that ended normally in both directions
 
 
 def v_oversize_frame(c):
@@ -271,6 +273,17 @@ def v_trailers_without_end_stream(c):
     return wire.headers(c.open_sid, c.enc.encode([(b'x-t', b'1')]))
 
 
+def v_headers_after_end_stream(c):
+    """HEADERS on a stream that both sides ended (closed, not reset): STREAM_CLOSED, whether or not the closed
+    stream has been cleaned out of the stream table in the meantime."""
+    if c.ended_sid is None:
+        return None
+    if c.ch.bool():
+        _ = c.ep.c.open_inbound_streams, c.ep.c.open_outbound_streams   # public properties; trigger clean-up
+    hs = RESP if c.client else REQ
+    return wire.headers(c.ended_sid, c.enc.encode(hs), end_stream=c.ch.bool())
+
+
 VIOLATIONS = [
     ('oversize-frame', FS, v_oversize_frame), ('ping-length', FS, v_ping_len), ('rst-length', FS, v_rst_len),
     ('window-update-length', FS, v_wu_len), ('priority-length', FS, v_prio_len),
@@ -290,6 +303,7 @@ VIOLATIONS = [
     ('informational-with-end-stream', P, v_informational_end_stream),
     ('data-before-response-headers', P, v_data_before_headers),
     ('trailers-without-end-stream', P, v_trailers_without_end_stream),
+    ('headers-after-end-stream', SC, v_headers_after_end_stream),
 ]
 BY_NAME = {n: (code, fn) for n, code, fn in VIOLATIONS}
 
@@ -323,6 +337,10 @@ def valid_prefix(ch, client):
             elif kind == 3:
                 o = ep.recv(wire.push_promise(sid, next_push, enc.encode(REQ)))
                 highest = next_push
+                if ch.bool():
+                    # the pushed response, complete: the promised stream is closed by END_STREAM
+                    ep.recv(wire.headers(next_push, enc.encode(RESP), end_stream=True))
+                    steps.append((next_push, 'pushed-and-ended'))
                 next_push += 2
                 open_sid = sid
             else:
@@ -389,6 +407,8 @@ def run_violation(r, ch, client, name):
     code, fn = BY_NAME[name]
     ep, enc, highest, next_sid, open_sid, data_sid, steps = valid_prefix(ch, client)
     c = Ctx(ch, ep, client, enc, highest, next_sid, open_sid)
+    ended = [sid for sid, kind in steps if kind == ('pushed-and-ended' if client else 1)]
+    c.ended_sid = ch.pick(ended) if ended else None
     if name in ('data-overruns-window', 'padding-too-long', 'trailers-without-end-stream'):
         c.open_sid = data_sid
     if name == 'data-before-response-headers':
@@ -407,6 +427,28 @@ def run_violation(r, ch, client, name):
         r.violate('C18:non-protocol-exception:%s:%s' % (o.exc_name, name), repr(o.exc))
         return True
     check_goaway(r, o, code, highest, c.opens, name)
+    # the connection is closed now: whatever else arrives, every further raising receive_data still owes exactly
+    # one GOAWAY carrying the code of its exception
+    for _ in range(ch.int(0, 3)):
+        if r.violations:
+            break
+        k = ch.pick(['ping', 'headers', 'data', 'settings', 'settings-ack', 'wu', 'rst', 'unknown', 'again'])
+        sid = c.open_sid or 1
+        more = {'ping': wire.ping(b'abcdefgh'), 'headers': wire.headers(next_sid + 10, raw_block(RESP if client else REQ)),
+                'data': wire.data(sid, b'x'), 'settings': wire.settings([(3, 9)]), 'settings-ack': wire.settings(ack=True),
+                'wu': wire.window_update(0, 1), 'rst': wire.rst_stream(sid, 8), 'unknown': wire.raw(0x55, 0, 0, b'u'),
+                'again': data}[k]
+        o2 = ep.recv(more)
+        r.step('after closure', k, o2.brief())
+        if o2.ok:
+            if wire.parse_all(o2.out)[0]:
+                r.violate('C18:output-without-error-after-closure:%s' % k, o2.out.hex()[:60])
+            continue
+        if not o2.is_protocol_error():
+            r.violate('C18:non-protocol-exception:%s:after-closure:%s' % (o2.exc_name, k), repr(o2.exc))
+            break
+        check_goaway(r, o2, None, None, None, 'after-closure')
+        r.labels.add('raised-again-after-closure')
     r.nontrivial = len([s for s in steps]) >= 2
     r.labels.add('category-%d' % code)
     return True
@@ -439,8 +481,15 @@ def monitor_case(ch, r):
     for chunk in bytesgen.split(stream, cuts):
         o = ep.recv(chunk)
         if not o.ok:
-            err = o
-            break
+            if err is None:
+                err = o
+            elif o.is_protocol_error():
+                # a later chunk after the connection error: same accounting
+                check_goaway(r, o, None, None, None, 'mutated-traffic-after-closure')
+                r.labels.add('raised-again-after-closure')
+            else:
+                break
+            continue
         if any(f.type == wire.GOAWAY for f in wire.parse_all(o.out)[0]):
             r.violate('C18:goaway-without-error', '')
     nfr = len(wire.frame_boundaries(stream[(0 if sc.client else 24):])) - 1
